@@ -52,6 +52,28 @@ def _within(rng, n_ops):
             + rc.gen_source_ops(rng, rates, sources, n_ops, allow_retry=False, allow_rates=False))
 
 
+PEER_IPS = ["10.0.0.1", "10.0.0.2", "2001:db8::1", "2001:db8::2", "fe80::1%eth0", "fe80::1%eth1", "::1", "::ffff:10.0.0.1"]
+
+
+def _clientip(rng, n_ops):
+    """within capacity, sources told apart by the stock client.ip extractor: every source is one peer address, written either
+    with a port (brackets for IPv6) or bare, and always the same way within the scenario (so the text of the address is the
+    source also for the monitor); amounts are 1 (the stock extractor's)"""
+    rates = rc.pick_rates(rng)
+    nsrc = rng.randint(2, 5)
+    ips = rng.sample(PEER_IPS, nsrc)
+    def addr(ip):
+        if rng.random() < 0.3:
+            return ip
+        port = rng.choice([80, 4000, 65535])
+        return "[%s]:%d" % (ip, port) if ":" in ip else "%s:%d" % (ip, port)
+    sources = [addr(ip) for ip in ips]
+    lines = rc.gen_source_ops(rng, rates, sources, n_ops, allow_retry=False, allow_rates=False)
+    # the stock extractor always yields amount 1
+    lines = [" ".join(l.split()[:4] + ["1"] + l.split()[5:]) for l in lines]
+    return ["cfg rate %s cap=%s solo=1 ext=clientip" % (rc.fmt_rates(rates), "default" if rng.random() < 0.3 else str(nsrc + rng.choice([0, 1, 3])))] + lines
+
+
 def _plans(rng, n_ops):
     """within capacity, per-request rate sets drawn from a few shared plans (the harness hands out one *RateSet object per
     plan): sources are moved between plans while other sources use them; often a source's first request on a plan directly
@@ -189,7 +211,9 @@ def gen(rng, tier):
     n_ops = {"quick": 90, "thorough": 200, "search": 120}.get(tier, 90)
     for k in range(n_scen):
         style = rng.random()
-        if style < 0.25:
+        if style < 0.07:
+            yield _clientip(rng, rng.randint(20, n_ops))
+        elif style < 0.25:
             yield _within(rng, rng.randint(20, n_ops))
         elif style < 0.4:
             yield _plans(rng, rng.randint(12, n_ops))
